@@ -102,6 +102,7 @@ structure InstW where
   lastHealthAt : Option (Nat × Bool) := none -- time and result of the latest health check of the current term
   discAt : Option Nat := none   -- latest disconnect notification
   graceDue : Option Nat := none -- the instant the grace mechanism must demote (latest disconnect + G), while the obligation is open
+  graceTie : Option Nat := none -- a reconnect notification arrived at the very instant the grace period expired: demoting then is as right as not demoting
   verifyOpen : Option (Nat × Bool) := none  -- reconnect notification at that time while leading; still "record never mine since"
   deriving Repr, Inhabited
 
